@@ -185,6 +185,13 @@ func genStage(r *rand.Rand, kind string) LStage {
 			for _, l := range distinctStrings(r, []string{"a", "p", "qq", "zz"}, 1+r.Intn(2)) {
 				s.Paths = append(s.Paths, LPathExpr{Label: l, Path: genPath(r)})
 			}
+			if len(s.Paths) == 2 && r.Intn(3) == 0 {
+				// two labels for one path (every label must get the value, whatever its kind)
+				s.Paths[1].Path = s.Paths[0].Path
+				if r.Intn(2) == 0 {
+					s.Paths[0].Path, s.Paths[1].Path = []PathSel{{Key: "nested"}}, []PathSel{{Key: "nested"}}
+				}
+			}
 			if r.Intn(2) == 0 {
 				s.Labels = distinctStrings(r, []string{"b", "lvl", "n"}, 1)
 			}
